@@ -1,19 +1,183 @@
-(* C35 - The page cache never evicts pinned pages or mixes contents.  Property theorems only. *)
+(* C35 - The page cache never evicts pinned pages or mixes contents.  Property theorems only.
+   Model/Cache.v is a hand-written transcription of src/storage/cache.rs and of the Cache-pool part
+   of src/memory/budget.rs (constants regenerated from src/config/constants.rs into Gen/CacheConsts.v).
+   [run step sched s0] ranges over every schedule, hence every number of threads and every
+   interleaving of the model's atomic steps (Lib/Interleave.v). *)
 From Coq Require Import ZArith List Bool Arith.
-From TV Require Import Lib.Interleave Gen.CacheConsts Model.Cache Proof.CacheShard.
+From TV Require Import Lib.Interleave Gen.CacheConsts Model.Cache
+  Proof.CacheShard Proof.CacheInv Proof.CacheLookup Proof.CacheEffect Proof.CachePins Proof.CacheAcct.
 Import ListNotations.
 Open Scope Z_scope.
 
-Theorem evict_sound :
+(* ---------- sequential shard theory ---------- *)
+
+(* SIEVE evict on a well-formed shard: terminates within the model's fuel, never indexes out of
+   range, changes nothing but visited flags and the hand, and a victim is indexed and NOT pinned *)
+Theorem evict_never_pinned :
   forall sh r sh', shard_wf sh -> evict sh = (r, sh') ->
   shard_wf sh' /\ map strip (ents sh') = map strip (ents sh) /\ cap sh' = cap sh /\ wl sh' = wl sh /\
   r <> EvPanic /\ r <> EvFuel /\
   (forall k, r = EvSome k -> exists j e, idx_get (idx sh') k = Some j /\ nth_error (ents sh') j = Some e /\ ekey e = k /\ is_pinned e = false).
 Proof. exact evict_spec. Qed.
 
-Check evict_sound :
+(* remove = swap_remove + index and hand fix-up keeps index <-> entries a bijection (the moved
+   entry's index is repaired), drops exactly the removed key and shortens the shard by one *)
+Theorem index_entries_bijection_remove :
+  forall sh i sh', shard_wf sh -> remove sh i = Some sh' ->
+  shard_wf sh' /\ length (ents sh') = (length (ents sh) - 1)%nat /\ cap sh' = cap sh /\ wl sh' = wl sh /\
+  (forall e, nth_error (ents sh) i = Some e ->
+     idx_get (idx sh') (ekey e) = None /\
+     forall k, k <> ekey e -> idx_get (idx sh') k <> None <-> idx_get (idx sh) k <> None).
+Proof. exact remove_wf. Qed.
+
+(* ---------- every interleaving ---------- *)
+
+(* all 64 shards stay well-formed (index <-> entries bijection, valid hand, len <= cap) and every
+   entry lives in the shard of its key *)
+Theorem shards_wf_all_schedules :
+  forall total limit c0 o progs sched, (NSH <= total)%nat ->
+  shards_ok (run step sched (init_st total limit c0 o progs)).
+Proof. intros. exact (proj1 (inv1_run total limit c0 o progs sched H)). Qed.
+
+(* a shard never holds more entries than its share of the configured capacity *)
+Theorem shard_capacity_inv :
+  forall total limit c0 o progs sched i sh, (NSH <= total)%nat ->
+  nth_error (shs (run step sched (init_st total limit c0 o progs))) i = Some sh ->
+  (length (ents sh) <= Nat.div total NSH + (if Nat.ltb i (Nat.modulo total NSH) then 1 else 0))%nat.
+Proof. exact capacity_run. Qed.
+
+(* programs without clear(): pin counts are exactly the outstanding PageRefs ... *)
+Theorem pins_all_schedules :
+  forall total limit c0 o progs sched, (NSH <= total)%nat -> progs_no_clear progs ->
+  pins_ok (run step sched (init_st total limit c0 o progs)).
+Proof. exact pins_run. Qed.
+
+(* ... so a page for which any thread holds a PageRef is resident (never evicted), with its data *)
+Theorem pinned_never_evicted :
+  forall total limit c0 o progs sched t th k, (NSH <= total)%nat -> progs_no_clear progs ->
+  let s := run step sched (init_st total limit c0 o progs) in
+  lget (thr s) t = Some th -> In k (held th) ->
+  exists e, slookup (shs s) k = Some e /\ 1 <= epin e /\ cache_data s k = Some (edata e).
+Proof. intros. eapply pinned_resident; eauto. apply pins_run; assumption. Qed.
+
+(* ... and no operation observes a missing or unpinned page behind a PageRef, nor an index out of range *)
+Theorem no_bad_results_all_schedules :
+  forall total limit c0 o progs sched, (NSH <= total)%nat -> progs_no_clear progs ->
+  no_bad_results (run step sched (init_st total limit c0 o progs)).
+Proof. exact results_run. Qed.
+
+(* any programs (clear() included): no operation indexes out of range *)
+Theorem no_panic_all_schedules :
+  forall total limit c0 o progs sched, (NSH <= total)%nat ->
+  no_panic (run step sched (init_st total limit c0 o progs)).
+Proof. exact no_panic_run. Qed.
+
+(* any programs: what data(k) returns is the value last written (or initialised) for key k *)
+Theorem contents_last_write :
+  forall total limit c0 o progs sched, (NSH <= total)%nat ->
+  contents_ok (run step sched (init_st total limit c0 o progs)).
+Proof. exact contents_run. Qed.
+
+(* budget accounting, outside the two recorded findings: with no operation in progress the Cache
+   pool holds exactly PAGE_SIZE per resident page (on top of what it held before); in particular
+   it is back at its initial value when the cache is empty *)
+Theorem budget_accounting :
+  forall total limit c0 o progs sched,
+  (NSH <= total)%nat -> NoDup (map fst progs) -> 0 <= c0 ->
+  let s := run step sched (init_st total limit c0 o progs) in
+  gleak s = false -> grace s = false -> quiescent s -> used s = c0 + PAGE_SIZE * total_len s.
+Proof. exact budget_accounting_l. Qed.
+
+(* F-C35-1: an init closure that fails leaves one page charged for ever *)
+Theorem budget_refuted_init_failure :
+  exists progs sched,
+    let s := run step sched (init_st 64 4194304 0 0 progs) in
+    idle_b s = true /\ gleak s = true /\ grace s = false /\ total_len s = 0 /\ used s = PAGE_SIZE.
+Proof. exact budget_refuted_init_failure_l. Qed.
+
+(* F-C35-2: an insert between len() and the shard clears of another thread's clear() *)
+Theorem budget_refuted_clear_race :
+  exists progs sched,
+    let s := run step sched (init_st 64 4194304 0 0 progs) in
+    idle_b s = true /\ gleak s = false /\ grace s = true /\ total_len s = 0 /\ used s = PAGE_SIZE.
+Proof. exact budget_refuted_clear_race_l. Qed.
+
+(* ---------- non-vacuity ---------- *)
+(* the hypotheses are satisfiable and the interesting regime is reached: two threads, capacity one
+   per shard, colliding keys: T1's insert finds the shard full with T0's page pinned (RErrFull), T0's
+   data survives, and after the unpin the page can be evicted *)
+Example c35_witness :
+  let progs := [(0%nat, [OGetIns 0 true 11; OWrite 0 12; OUnpin 0]); (1%nat, [OGetIns 64 true 21; OGetIns 64 true 22; ORead 0])] in
+  let s := run step (sched_of [(0%nat, 11%nat); (1%nat, 12%nat); (0%nat, 2%nat); (1%nat, 40%nat)]) (init_st 64 4194304 0 0 progs) in
+  (NSH <= 64)%nat /\ progs_no_clear progs /\ NoDup (map fst progs) /\
+  idle_b s = true /\ gleak s = false /\ grace s = false /\
+  option_map res (lget (thr s) 1%nat) = Some [RData None; RIns; RErrFull] /\
+  option_map res (lget (thr s) 0%nat) = Some [RUnpinned; RWrote; RIns] /\
+  cache_data s 64 = Some 22 /\ total_len s = 1 /\ used s = PAGE_SIZE.
+Proof.
+  cbv zeta. split; [vm_compute; apply le_n|]. split.
+  - intros t p [H|[H|[]]]; inversion H; subst; intros Q; cbn in Q; intuition discriminate.
+  - split; [repeat constructor; cbn; intuition discriminate|]. vm_compute. repeat split.
+Qed.
+
+Check evict_never_pinned :
   forall sh r sh', shard_wf sh -> evict sh = (r, sh') ->
   shard_wf sh' /\ map strip (ents sh') = map strip (ents sh) /\ cap sh' = cap sh /\ wl sh' = wl sh /\
   r <> EvPanic /\ r <> EvFuel /\
   (forall k, r = EvSome k -> exists j e, idx_get (idx sh') k = Some j /\ nth_error (ents sh') j = Some e /\ ekey e = k /\ is_pinned e = false).
-Print Assumptions evict_sound.
+Check index_entries_bijection_remove :
+  forall sh i sh', shard_wf sh -> remove sh i = Some sh' ->
+  shard_wf sh' /\ length (ents sh') = (length (ents sh) - 1)%nat /\ cap sh' = cap sh /\ wl sh' = wl sh /\
+  (forall e, nth_error (ents sh) i = Some e ->
+     idx_get (idx sh') (ekey e) = None /\
+     forall k, k <> ekey e -> idx_get (idx sh') k <> None <-> idx_get (idx sh) k <> None).
+Check shards_wf_all_schedules :
+  forall total limit c0 o progs sched, (NSH <= total)%nat ->
+  shards_ok (run step sched (init_st total limit c0 o progs)).
+Check shard_capacity_inv :
+  forall total limit c0 o progs sched i sh, (NSH <= total)%nat ->
+  nth_error (shs (run step sched (init_st total limit c0 o progs))) i = Some sh ->
+  (length (ents sh) <= Nat.div total NSH + (if Nat.ltb i (Nat.modulo total NSH) then 1 else 0))%nat.
+Check pins_all_schedules :
+  forall total limit c0 o progs sched, (NSH <= total)%nat -> progs_no_clear progs ->
+  pins_ok (run step sched (init_st total limit c0 o progs)).
+Check pinned_never_evicted :
+  forall total limit c0 o progs sched t th k, (NSH <= total)%nat -> progs_no_clear progs ->
+  let s := run step sched (init_st total limit c0 o progs) in
+  lget (thr s) t = Some th -> In k (held th) ->
+  exists e, slookup (shs s) k = Some e /\ 1 <= epin e /\ cache_data s k = Some (edata e).
+Check no_bad_results_all_schedules :
+  forall total limit c0 o progs sched, (NSH <= total)%nat -> progs_no_clear progs ->
+  no_bad_results (run step sched (init_st total limit c0 o progs)).
+Check no_panic_all_schedules :
+  forall total limit c0 o progs sched, (NSH <= total)%nat ->
+  no_panic (run step sched (init_st total limit c0 o progs)).
+Check contents_last_write :
+  forall total limit c0 o progs sched, (NSH <= total)%nat ->
+  contents_ok (run step sched (init_st total limit c0 o progs)).
+Check budget_accounting :
+  forall total limit c0 o progs sched,
+  (NSH <= total)%nat -> NoDup (map fst progs) -> 0 <= c0 ->
+  let s := run step sched (init_st total limit c0 o progs) in
+  gleak s = false -> grace s = false -> quiescent s -> used s = c0 + PAGE_SIZE * total_len s.
+Check budget_refuted_init_failure :
+  exists progs sched,
+    let s := run step sched (init_st 64 4194304 0 0 progs) in
+    idle_b s = true /\ gleak s = true /\ grace s = false /\ total_len s = 0 /\ used s = PAGE_SIZE.
+Check budget_refuted_clear_race :
+  exists progs sched,
+    let s := run step sched (init_st 64 4194304 0 0 progs) in
+    idle_b s = true /\ gleak s = false /\ grace s = true /\ total_len s = 0 /\ used s = PAGE_SIZE.
+
+Print Assumptions evict_never_pinned.
+Print Assumptions index_entries_bijection_remove.
+Print Assumptions shards_wf_all_schedules.
+Print Assumptions shard_capacity_inv.
+Print Assumptions pins_all_schedules.
+Print Assumptions pinned_never_evicted.
+Print Assumptions no_bad_results_all_schedules.
+Print Assumptions no_panic_all_schedules.
+Print Assumptions contents_last_write.
+Print Assumptions budget_accounting.
+Print Assumptions budget_refuted_init_failure.
+Print Assumptions budget_refuted_clear_race.
